@@ -45,7 +45,7 @@ def run(ctx):
             if g.get("problems"):
                 probs += g["problems"]
             elif g["accept"] != e["accept"]:
-                probs.append("%s %s a certificate with a %s key%s" % (c["ser"], "accepted" if g["accept"] else "rejected", {"match": "matching", "otherkey": "different", "swapped": "swapped sign/enc", "negated": "negated (n-d, same x)", "grafted": "different (the certificate's public point grafted into its PKCS#8 file)", "match_chain": "matching (certificate PEM = leaf + CA)", "chain_cakey": "CA's (certificate PEM = leaf + CA)"}[c["shape"]],
+                probs.append("%s %s a certificate with a %s key%s" % (c["ser"], "accepted" if g["accept"] else "rejected", {"match": "matching", "match_prefixed": "matching (behind other PEM blocks in the key input)", "otherkey": "different", "swapped": "swapped sign/enc", "negated": "negated (n-d, same x)", "grafted": "different (the certificate's public point grafted into its PKCS#8 file)", "match_chain": "matching (certificate PEM = leaf + CA)", "chain_cakey": "CA's (certificate PEM = leaf + CA)"}[c["shape"]],
                                                                     (" (" + g.get("err", g.get("note", "")) + ")") if g.get("err") or g.get("note") else ""))
         if probs:
             ctx.violation("%s: %s" % (json.dumps(c, sort_keys=True), "; ".join(probs[:3])), {"case": c, "expect": e, "observed": g})
